@@ -32,7 +32,12 @@ RULE = (
     "graph - never added, or taken out with the non-safe Graph.remove - at any depth, often as the only "
     "consumer of a capturing node) - for structures of <=5 nodes every combination of "
     "initial permutations is evaluated - plus (thorough) every loop-free digraph on <=4 labelled nodes "
-    "x every permutation x 4 nesting shapes. Non-trivial = the sorted scope has >=2 nodes and >=1 "
+    "x every permutation x 4 nesting shapes. In about 40% of the evaluations the initial order is not "
+    "constructed directly but REACHED: the graphs are built in another order (or the same one) and then "
+    "rearranged with public move operations (Graph.insert_after/insert_before/append/extend, Node.append/"
+    "prepend with nodes already in the graph, Graph.remove + re-adding; single Node / list / tuple / one-shot "
+    "iterator arguments; moves of the first/last node and moves to where the node already is, also as the "
+    "last thing before the sort); their twin is built directly in the reached order. Non-trivial = the sorted scope has >=2 nodes and >=1 "
     "same-graph dependency constraint; distinct = hash of (structure, initial orders, entry point)."
 )
 ASSUMPTIONS = [
@@ -41,10 +46,14 @@ ASSUMPTIONS = [
     "only lexically well-scoped graphs are generated (a value is used in its own graph or in graphs nested in it); for these the per-graph cycle notion of the statement and a global one coincide, so 'cycle' is unambiguous",
     "'depends only on structure and previous order' is sampled by two construction histories of the same structure in one process (different object creation order, addresses, uses() order) and by fresh interpreters under PYTHONHASHSEED 1/4242/31337; attribute names/order, node and value names are kept identical and count as structure",
     "when only some graphs of the sorted scope were already in a valid order, a change of those graphs is counted (report_only_partial_stability_changed) but not judged; judged stability = the whole scope was valid and anything moved, and a second sort after a successful one moves anything",
+    "the meaning of the move operations used to reach an initial order (nodes end up, in the given order, directly after/before the anchor or at the end) is the harness's list model; if the real graphs end in another order than the model (or a move raises) that is not C12's business: counted (report_only_moves_reached_other_order / report_only_move_raised), the sort is judged on the order actually observed before it",
+    "an order reached by moves and the same order constructed directly are 'the same structure and previous order': their sort results must agree (twin comparison)",
+    "reversed(graph) disagreeing with list(graph) after a sort is counted (report_only_reversed_view_differs_after_sort), not judged",
     "for TopologicalSortPass over several units a ValueError from a later unit after an earlier unit was sorted is counted (report_only_pass_sorted_before_raise), not judged; the cyclic units themselves must be unchanged",
 ]
 
 TARGET_W = [("Graph.sort", 45), ("Function.sort", 20), ("TopologicalSortPass", 20), ("Graph.sort(subgraph)", 15)]
+P_HISTORY = 0.4  # share of the evaluations whose initial order is reached through move operations
 HASHSEEDS = ("1", "4242", "31337")
 
 
@@ -68,9 +77,12 @@ def plan(tier: str) -> dict:
                 "feature:capture_after_cf_reordered": 600, "cycle:self-nested": 150, "cycle:self-direct": 1500,
                 "depth3_evaluations": 250, "evaluations_with_detached_consumers": 4000,
                 "feature:capturing_node_consumed_only_by_detached": 400,
+                "history_evaluations": 15000, "history_moves_applied": 100000, "history_twin_built_directly": 15000,
+                "history:last_move_is_noop_of_last_node": 4000, "history:last_move_is_noop_of_first_node": 2500,
+                "history:noop_moves": 50000, "history:readded_after_remove": 5000,
             },
             "min_nontrivial": 15000,
-            "params": {"exhaustive_n": 3, "hashseed_every": 40, "hashseed_shard_mod": 4},
+            "params": {"exhaustive_n": 3, "hashseed_every": 40, "hashseed_shard_mod": 4, "exhaustive_history": 1.0},
         }
     return {
         "cases": 300000,
@@ -87,9 +99,12 @@ def plan(tier: str) -> dict:
             "feature:capture_after_cf_reordered": 15000, "cycle:self-nested": 1800, "cycle:self-direct": 40000,
             "depth3_evaluations": 3000, "evaluations_with_detached_consumers": 100000,
             "feature:capturing_node_consumed_only_by_detached": 30000,
+            "history_evaluations": 100000, "history_moves_applied": 500000, "history_twin_built_directly": 100000,
+            "history:last_move_is_noop_of_last_node": 8000, "history:last_move_is_noop_of_first_node": 4000,
+            "history:noop_moves": 100000, "history:readded_after_remove": 12000,
         },
         "min_nontrivial": 400000,
-        "params": {"exhaustive_n": 4, "hashseed_every": 12, "hashseed_shard_mod": 1},
+        "params": {"exhaustive_n": 4, "hashseed_every": 12, "hashseed_shard_mod": 1, "exhaustive_history": 0.1},
     }
 
 
@@ -127,7 +142,7 @@ def judge(case: dict, r: dict, counts: Counter) -> list[tuple[str, str]]:
     cyclic_units: dict[int, str] = {}
     for u, spec in enumerate(units):
         for gid in sorted(scope[u]):
-            if G.has_cycle(spec["graphs"][gid]["order"], cons[u][gid]):
+            if G.has_cycle(pre[u][gid], cons[u][gid]):
                 cyclic_units.setdefault(u, G.classify_cycle(cons[u][gid]))
     for kind in set(cyclic_units.values()):
         counts[f"cycle:{kind}"] += 1
@@ -180,6 +195,8 @@ def judge(case: dict, r: dict, counts: Counter) -> list[tuple[str, str]]:
                 counts["feature:capture_after_cf_reordered"] += 1
         if r["cons_after"] != cons:
             counts["report_only_structure_changed_by_sort"] += 1
+        if r.get("reversed_differs"):
+            counts["report_only_reversed_view_differs_after_sort"] += 1
         if target == "TopologicalSortPass" and r["modified"] is not None:
             really = post != pre
             if bool(r["modified"]) != really:
@@ -213,23 +230,61 @@ def judge(case: dict, r: dict, counts: Counter) -> list[tuple[str, str]]:
     return out
 
 
+HIST = "|order-reached-by-moves"
+
+
+def has_history(case: dict) -> bool:
+    return any("history" in u for u in case["units"])
+
+
+def without_history(case: dict) -> dict:
+    return dict(case, units=[G.strip_history(u) for u in case["units"]])
+
+
+def _history_suffix(case: dict) -> str:
+    tags = sorted({t for u in case["units"] if "history" in u for t in G.history_tags(u)})
+    return HIST + ":" + ",".join(tags)
+
+
+def sig_class(sig: str) -> tuple[str, bool]:
+    return sig.split(HIST)[0], HIST in sig
+
+
 def check_case(case: dict, counts: Counter, twin_variant: str = "B", twin_seed: int = 1):
     """Execute + judge + twin build.  Returns (findings, execution record)."""
+    hist = has_history(case)
     r = B.execute(case, "A", 0)
+    if "move_failed" in r:
+        counts["report_only_move_raised"] += 1
+        return [], r
+    other_order = False
     for u, spec in enumerate(case["units"]):
         if G.spec_constraints(spec) != r["cons"][u]:
             raise RuntimeError("C12 harness: the relation read from the objects differs from the spec's\n" + render(case))
         if r["pre"][u] != [g["order"] for g in spec["graphs"]]:
-            raise RuntimeError("C12 harness: built graphs are not in the spec's initial order\n" + render(case))
+            if "history" not in spec:
+                raise RuntimeError("C12 harness: built graphs are not in the spec's initial order\n" + render(case))
+            other_order = True
+    if other_order:
+        counts["report_only_moves_reached_other_order"] += 1
     findings = judge(case, r, counts)
-    t = B.execute(case, twin_variant, twin_seed, resort=False)
-    if t["pre"] != r["pre"] or t["cons"] != r["cons"]:
+    # the twin: another construction history of the same structure and initial order; for an order
+    # reached by moves it is the direct construction in that order
+    t = B.execute(without_history(case), twin_variant, twin_seed, resort=False)
+    if t["cons"] != r["cons"] or (t["pre"] != r["pre"] and not other_order):
         raise RuntimeError("C12 harness: twin build is not isomorphic\n" + render(case))
-    counts["twin_compared"] += 1
-    if (t["exc"], t["post"]) != (r["exc"], r["post"]):
-        findings.append((f"determinism-twin|{case['target']}",
-                         f"two independently built isomorphic inputs (same structure, same initial order) ended "
-                         f"differently: {r['exc']} {r['post']} vs {t['exc']} {t['post']} (construction {twin_variant})\n{render(case, r)}"))
+    if t["pre"] == r["pre"]:
+        counts["twin_compared"] += 1
+        if hist:
+            counts["history_twin_built_directly"] += 1
+        if (t["exc"], t["post"]) != (r["exc"], r["post"]):
+            how = "the same initial order constructed directly" if hist else f"construction {twin_variant}"
+            findings.append((f"determinism-twin|{case['target']}",
+                             f"two independently built isomorphic inputs (same structure, same initial order) ended "
+                             f"differently: {r['exc']} {r['post']} vs {t['exc']} {t['post']} ({how})\n{render(case, r)}"))
+    if hist and findings:
+        suffix = _history_suffix(case)
+        findings = [(sig + suffix, msg) for sig, msg in findings]
     return findings, r
 
 
@@ -300,6 +355,32 @@ def _case_size(case: dict) -> int:
 
 def _reductions(case: dict):
     units = case["units"]
+    for u, spec in enumerate(units):
+        if "history" not in spec:
+            continue
+        h = spec["history"]
+        cands = []
+        if len(h["moves"]) > 3:  # all moves of one graph but the last one / but the last two
+            for gid in {m[1] for m in h["moves"]}:
+                own = [k for k, m in enumerate(h["moves"]) if m[1] == gid]
+                for keep in (1, 2):
+                    if len(own) > keep:
+                        cands.append(dict(h, moves=[m for k, m in enumerate(h["moves"]) if k not in own[:-keep]]))
+        for k in reversed(range(len(h["moves"]))):
+            cands.append(dict(h, moves=h["moves"][:k] + h["moves"][k + 1:]))
+        for k, m in enumerate(h["moves"]):
+            for j in reversed(range(len(m[3]))):
+                if len(m[3]) > 1:
+                    moved = m[3][:j] + m[3][j + 1:]
+                    cands.append(dict(h, moves=h["moves"][:k] + [[m[0], m[1], m[2], moved, "list" if m[4] == "node" else m[4]]]
+                                      + h["moves"][k + 1:]))
+        for gid, (o, g) in enumerate(zip(h["start"], spec["graphs"])):
+            if o != g["order"]:
+                cands.append(dict(h, start=h["start"][:gid] + [list(g["order"])] + h["start"][gid + 1:]))
+        for hh in cands:
+            new = G.settle_history(dict(spec, history=hh))
+            if new is not None:
+                yield dict(case, units=units[:u] + [new] + units[u + 1:])
     if len(units) > 1:
         for k in range(len(units) - 1, 0, -1):
             yield dict(case, units=units[:k] + units[k + 1:])
@@ -345,7 +426,7 @@ def shrink(case: dict, signature: str, variant: str, seed: int, max_tests: int =
             found, _ = check_case(c, Counter(), variant, seed)
         except RuntimeError:
             return False
-        return any(sig == signature for sig, _ in found)
+        return any(sig_class(sig) == sig_class(signature) for sig, _ in found)
 
     tests = 0
     progress = True
@@ -409,7 +490,8 @@ def generate(rng) -> tuple[list[dict], dict]:
         if combos is not None:
             meta["all_permutations"] = True
             for o in combos:
-                cases.append({"units": [G.with_orders(spec, o)], **tgt})
+                unit = G.with_orders(spec, o)
+                cases.append({"units": [G.add_history(rng, unit) if rng.random() < P_HISTORY else unit], **tgt})
             return cases, meta
     modes = rng.sample(G.ORDER_MODES, 2)
     if rng.random() < 0.3 and "hidden" not in modes:
@@ -420,21 +502,65 @@ def generate(rng) -> tuple[list[dict], dict]:
             for _ in range(rng.choice([0, 1, 1, 2])):
                 fs, _m = G.gen_structure(rng, rng.randint(1, 10), rng.choice([0, 1, 2]), rng.random() < 0.2)
                 units.append(G.with_orders(fs, G.initial_orders(rng, fs, rng.choice(G.ORDER_MODES))))
+        if rng.random() < P_HISTORY:
+            units = [G.add_history(rng, un) if (k == 0 or rng.random() < 0.6) else un for k, un in enumerate(units)]
         cases.append({"units": units, **tgt})
     return cases, meta
 
 
 def _report(ctx, findings, case, variant, seed, do_shrink=True) -> None:
+    shrunk = ctx.__dict__.setdefault("_c12_shrunk_classes", set())
     for sig, msg in findings:
         witness = case
-        if do_shrink and not any(v["signature"] == sig for v in ctx.violations):
+        cls = sig_class(sig)
+        if cls[1]:
+            # does the failure need the moves at all?  (then it is reported as what it is)
+            plain, _ = check_case(without_history(case), Counter(), variant, seed)
+            if any(s == cls[0] for s, _m in plain):
+                continue  # the same case without moves fails too; that evaluation/report is made on its own below
+        if do_shrink and cls not in shrunk:
+            shrunk.add(cls)
             small = shrink(case, sig, variant, seed)
             refound, _ = check_case(small, Counter(), variant, seed)
-            again = next((m for s, m in refound if s == sig), None)
+            again = next(((s, m) for s, m in refound if sig_class(s) == cls), None)
             if again is not None:  # (an address-dependent failure may not reproduce: keep the original then)
                 witness = small
-                msg = f"[shrunk witness, {sum(len(u['nodes']) for u in small['units'])} nodes] " + again
+                sig = again[0]
+                msg = f"[shrunk witness, {sum(len(u['nodes']) for u in small['units'])} nodes] " + again[1]
+        elif cls[1]:
+            sig = cls[0] + HIST  # (not shrunk: the moves that matter are not singled out)
         ctx.violation(sig, msg, {"case": witness, "twin_variant": variant, "twin_seed": seed})
+    if has_history(case) and findings:
+        plain_case = without_history(case)
+        plain, _ = check_case(plain_case, Counter(), variant, seed)
+        if plain:
+            _report(ctx, plain, plain_case, variant, seed, do_shrink)
+
+
+def _count_history(ctx, spec: dict, scope: set[int]) -> None:
+    moves = spec["history"]["moves"]
+    _final, flags = G.run_history(spec)
+    ctx.count("history_moves_applied", len(moves))
+    last_of_graph: dict[int, int] = {}
+    for k, (m, f) in enumerate(zip(moves, flags)):
+        ctx.count(f"move:{m[0]}")
+        ctx.count(f"move_arg:{m[4]}")
+        if "no-op" in f:
+            ctx.count("history:noop_moves")
+        if "re-add" in f:
+            ctx.count("history:readded_after_remove")
+        if "last" in f:
+            ctx.count("history:moves_of_last_node")
+        if "first" in f:
+            ctx.count("history:moves_of_first_node")
+        last_of_graph[m[1]] = k
+    ctx.count("history:graphs_with_moves", len(last_of_graph))
+    # what the sort finds: the last thing that happened to a graph of the sorted scope was a move of
+    # its last / first node to where it already was (through an anchored insertion, not append/extend)
+    for end in ("last", "first"):
+        if any(gid in scope and len(spec["graphs"][gid]["order"]) >= 2 and {"no-op", end} <= flags[k]
+               and moves[k][0] not in ("Graph.append", "Graph.extend") for gid, k in last_of_graph.items()):
+            ctx.count(f"history:last_move_is_noop_of_{end}_node")
 
 
 def _evaluate(ctx, case: dict, rng, hs_batch: list, every: int, meta: dict | None = None) -> None:
@@ -444,8 +570,16 @@ def _evaluate(ctx, case: dict, rng, hs_batch: list, every: int, meta: dict | Non
     findings, r = check_case(case, counts, variant, seed)
     for k, v in counts.items():
         ctx.count(k, v)
+    if "move_failed" in r:
+        ctx.evaluation(key=stable_hash([case["units"], case["target"], case.get("sub")]), nontrivial=False)
+        return
     ctx.count(f"target:{case['target']}")
     sc = scopes(case)
+    if has_history(case):
+        ctx.count("history_evaluations")
+        for u, s_ in zip(case["units"], sc):
+            if "history" in u:
+                _count_history(ctx, u, s_)
     n_nodes = sum(len(u["graphs"][g]["order"]) for u, s in zip(case["units"], sc) for g in s)
     n_cons = sum(len(r["cons"][u][g]) for u, s in enumerate(sc) for g in s)
     ctx.count("nodes_sorted", n_nodes)
@@ -490,6 +624,11 @@ def run(ctx) -> None:
         _evaluate(ctx, case, ctx.rng(idx, "exh"), hs_batch, every * 8)
         ctx.count("exhaustive_evaluations")
         ctx.count(f"exhaustive_shape:{shape}")
+        hrng = ctx.rng(idx, "exh-history")
+        if hrng.random() < float(p.get("exhaustive_history", 0.0)):
+            # the same item once more, its order reached through moves (not part of the enumerated space)
+            _evaluate(ctx, dict(case, units=[G.add_history(hrng, case["units"][0])]), hrng, hs_batch, every * 8)
+            ctx.count("exhaustive_items_also_reached_by_moves")
         if len(ctx.violations) >= ctx.MAX_VIOLATIONS:
             complete = False
             break
